@@ -275,10 +275,37 @@ func zzC05Takeover() {
 	zzCover("C05.takeover.done")
 }
 
-func ZZ_C05_Modify()    { zzC05Modify() }
-func ZZ_C05_Delete()    { zzC05Delete() }
-func ZZ_C05_Assoc()     { zzC05Assoc() }
-func ZZ_C05_ReportRsp() { zzC05ReportRsp() }
-func ZZ_C05_Establish() { zzC05Establish() }
-func ZZ_C05_Reports()   { zzC05Reports() }
-func ZZ_C05_Takeover()  { zzC05Takeover() }
+// SEID reuse across nodes: A is deleted by a Deletion Request, its SEID is re-issued to a session of
+// the OTHER node, then A's former node re-associates: that must remove nothing of the other node.
+func zzC05DeleteReuseReassoc() {
+	z := zzMkIso()
+	zzDeliver(z.s, zzDelReq(2, 7), zzAddr(z.na), 7)
+	_, err := z.s.lnode.Sess(2)
+	zzAssert("C05.reuse2.a-gone", err != nil)
+	other := 1 - z.na
+	n := z.s.rnodes[zzNodeID(other)].NewSess(nondetU64("new-cp"))
+	zzAssert("C05.reuse2.same-seid", n.LocalID == 2)
+	n.FARIDs[5] = struct{}{}
+	z.dp.rules = append(z.dp.rules, zzRuleRec{2, zzFAR, 5, zzPresent})
+	from := len(z.dp.calls)
+	zzDeliver(z.s, zzAssocReq(8, zzNodeID(z.na)), zzAddr(z.na), 8)
+	got, err := z.s.lnode.Sess(2)
+	zzAssert("C05.reuse2.new-owner-session-survives-old-owners-reassociation", err == nil && got == n)
+	zzAssert("C05.reuse2.new-owner-rules-kept", z.dp.rulesOf(2) == 1)
+	for _, c := range z.dp.calls[from:] {
+		zzAssert("C05.reuse2.no-call-under-reused-seid", c.seid != 2)
+	}
+	if z.nb != z.na {
+		z.bIntact("reuse2")
+	}
+	zzCover("C05.reuse2.done")
+}
+
+func ZZ_C05_DeleteReuseReassoc() { zzC05DeleteReuseReassoc() }
+func ZZ_C05_Modify()             { zzC05Modify() }
+func ZZ_C05_Delete()             { zzC05Delete() }
+func ZZ_C05_Assoc()              { zzC05Assoc() }
+func ZZ_C05_ReportRsp()          { zzC05ReportRsp() }
+func ZZ_C05_Establish()          { zzC05Establish() }
+func ZZ_C05_Reports()            { zzC05Reports() }
+func ZZ_C05_Takeover()           { zzC05Takeover() }
